@@ -340,7 +340,9 @@ def history(rng: random.Random, profile: Optional[Profile] = None, asset: str = 
                 "notes": "",
             }
             if not earn:
-                if p.allow_in_crypto_fee and rng.random() < 0.3:
+                # (an acquisition worth less than RP2's 13-decimal resolution cannot carry a crypto fee: the parser re-creates it
+                # with an explicit fiat value, which is then "zero")
+                if p.allow_in_crypto_fee and rng.random() < 0.3 and amount * spot >= p.min_transfer_fee_fiat:
                     row["cfee"] = dstr(_limit_sig(max(Q11, q11(amount / rng.choice((50, 100, 1000)))), p.max_sig_digits))
                 elif rng.random() < p.p_in_fiat_fee:
                     row["ffee"] = dstr(_limit_sig(q11(amount * spot / rng.choice((20, 100, 333))) + Decimal("0.01"), p.max_sig_digits))
